@@ -12,7 +12,9 @@ EXPLANATION = (
     "the symbolic entry must be the marginal sum by label in the requested order, the entry replicated along the added "
     "dimensions in the target's order, entry / (sum over the given dimensions), the running sum along the named dimension in "
     "item order; unknown dimensions and cast targets lacking a source dimension must be refused. The linear identities of the "
-    "property (totals preserved, shares add to one) follow from these symbolic entries; their floating-point evaluation is not decided.")
+    "property (totals preserved, shares add to one) follow from these symbolic entries; their floating-point evaluation is not decided."
+    " Also evaluated in a world in which all dimensions carry one name (only letters identify them) and with Dimension objects that are equal to, but not the same objects as, the array's own."
+)
 TECHNIQUE = "static analysis: abstract interpretation of the reduction/cast methods' AST on a labelled-tensor domain, exhaustive over dimension lists and subsets"
 
 
